@@ -47,10 +47,16 @@ const (
 // document order, null omitted, unknown skipped; then unset fields in ascending id order as the
 // truth table says. nativeOptionalRule selects the native converter's handling of optional fields
 // (written iff WriteOptional) - the only rule exercised by C02 worlds.
+// nullTailMarks, when non-nil, receives for every struct whose LAST document member is null the
+// offset (in the expected encoding) where its present members end, i.e. where the native code's
+// unwind position lies (used only to characterise mismatches for known finding F02).
+var nullTailMarks *[]int
+
 func expectJ2T(b []byte, v *TVal, o writeOpts) ([]byte, expectErr) {
 	switch v.T.Kind {
 	case tSTRUCT:
 		seen := map[int]bool{}
+		defer func() {}()
 		for _, fv := range v.Fields {
 			if fv.F == nil {
 				if o.DisallowUnknown {
@@ -67,6 +73,11 @@ func expectJ2T(b []byte, v *TVal, o writeOpts) ([]byte, expectErr) {
 			b, e = expectJ2T(b, fv.V, o)
 			if e != expOK {
 				return b, e
+			}
+		}
+		if nullTailMarks != nil {
+			if n := len(v.Fields); n > 0 && v.Fields[n-1].F != nil && v.Fields[n-1].V == nil {
+				*nullTailMarks = append(*nullTailMarks, len(b))
 			}
 		}
 		// unset fields, ascending id
